@@ -52,7 +52,7 @@ def tagger1(cls):
 def kerr_hook(cls, d):
     # a variant whose own from_dict leaks a KeyError (e.g. a hook indexing a mapping) on inputs carrying the marker
     if "kerr" in d:
-        raise KeyError("kerr")
+        raise KeyError("kerr:" + cls.__name__)
     return d
 """ % N_ENUM
 
@@ -384,7 +384,7 @@ def gen_history(rng, stream: str = "main", max_ops: int = 40) -> Hist:
 
     def pick_parents():
         p = rng.randrange(len(classes))
-        if stream != "kf" and rng.random() < 0.12:      # the faithful model of the known-finding region is single-inheritance
+        if rng.random() < 0.12:
             fam = [c["id"] for c in classes if root_of[c["id"]] == root_of[p] and c["id"] != p]
             if fam:
                 q = rng.choice(fam)
@@ -404,18 +404,13 @@ def gen_history(rng, stream: str = "main", max_ops: int = 40) -> Hist:
         # would silently get the member order of the first one -> one order per member set and history
         bases = union_order.setdefault(frozenset(bases), bases)
         sub, sup = rng.choice([(True, False), (True, False), (True, True), (True, True), (False, True)])
-        # (X2) known finding nofield-inherited-unpacker: no-field mode through a nailed holder over plain dataclasses
-        if stream != "kf" and not mode_field and wiring != "codec" and any(classes[x]["plain"] for x in bases):
-            wiring = "codec"
         shape = rng.choice(INNER_SHAPES)
         if rng.random() < 0.35:
             # the Discriminator around the container; a Union base below Optional flattens to Union[A, B, None]
             shape = rng.choice(OUTER_SHAPES if (len(bases) == 1 or mode_field) else ["a_list", "a_dict"])
         tagger = mode_field and use_tagger and rng.random() < 0.6
-        # (X4) known finding optional-union-nonetype-variant: Optional[Union[A, B]] flattens to Union[A, B, None]; with
-        # include_supertypes NoneType is a variant and a tagger makes the refill compile it (TypeError)
-        if shape in ("a_opt", "a_listopt") and len(bases) > 1 and sup and tagger:
-            shape = "a_list"
+        # known finding optional-union-nonetype-variant (Optional[Union[A, B]] + include_supertypes + tagger: the refill
+        # crashes on NoneType) is IN the model (Discr.crash_on_refill); the oracle classifies those failures by signature
         return {"wiring": wiring, "bases": bases, "sub": sub, "sup": sup, "field": mode_field, "fid": rng.choice(key_ids),
                 "tagger": tagger, "tgid": rng.randrange(2), "config": False, "shape": shape}
 
@@ -669,6 +664,18 @@ def outcome_of_exc(e: BaseException):
     u = unwrap_exc(e)
     if u.startswith("exc:"):
         cur, n = e, 0
+        while cur is not None and n < 6:       # the selected class's own KeyError surfaces (it names the class)
+            if type(cur) is KeyError and cur.args and isinstance(cur.args[0], str) and cur.args[0].startswith("kerr:C"):
+                return ("keyerr", cur.args[0][5:])
+            cur = cur.__cause__ or cur.__context__
+            n += 1
+        cur, n = e, 0
+        while cur is not None and n < 6:       # the refill tripped over the NoneType member of a flattened Optional[Union[..]]
+            if type(cur) is TypeError and "immutable type 'NoneType'" in str(cur):
+                return ("crash",)
+            cur = cur.__cause__ or cur.__context__
+            n += 1
+        cur, n = e, 0
         while cur is not None and n < 6:       # the dispatcher's own answer to a non-mapping input
             if type(cur) is ValueError and "discriminated by" in str(cur) and "should be a dict instance" in str(cur):
                 return ("notdict",)
@@ -863,8 +870,10 @@ def run_history(h: Hist):
                     exp[1].append(e1[1])
                 if exp is not None and exp != obs:
                     kf = exp[0] == "keyerr" and obs == ("notfound",)
+                    kf2 = obs == ("crash",) and any(site_has_none(h.sites[si]) and h.sites[si]["sup"] and h.sites[si]["tagger"] for si, _, _ in op[1])
                     fails.append((k, f"{step['call']}({ {f: i for f, _, i in step['multi']} }) -> {fmt(obs)}, expected {fmt(exp)}",
-                                  fmt(exp), fmt(obs), {"kind": "variant-keyerror-misreported" if kf else "field-dispatch", "wiring": "holder-multi"}))
+                                  fmt(exp), fmt(obs), {"kind": "variant-keyerror-misreported" if kf else
+                                                       "optional-union-nonetype-variant" if kf2 else "field-dispatch", "wiring": "holder-multi"}))
                 continue
             s = h.sites[op[1]]
             if op[0] == "decodebad":
@@ -884,15 +893,15 @@ def run_history(h: Hist):
                 flags[oi] = uq
                 if exp is not None and exp != obs:
                     kf = exp[0] == "keyerr" and obs == ("notfound",)
+                    kf2 = obs == ("crash",) and site_has_none(s) and s["sup"] and s["tagger"] and s["wiring"] == "holder"
                     fails.append((k, f"{step['call']}({step['input']}) -> {fmt(obs)}, expected {fmt(exp)}",
-                                  fmt(exp), fmt(obs), {"kind": "variant-keyerror-misreported" if kf else "field-dispatch", "wiring": s["wiring"]}))
+                                  fmt(exp), fmt(obs), {"kind": "variant-keyerror-misreported" if kf else
+                                                       "optional-union-nonetype-variant" if kf2 else "field-dispatch", "wiring": s["wiring"]}))
             else:
                 why, acc_sub, acc_sup = spec_nofield_check(ns, n_classes, s, step["input"], obs)
                 if why is not None:
                     should = acc_sub if acc_sub else acc_sup
-                    kf = (s["wiring"] == "holder" and obs[0] in ("inst", "notfound") and bool(should)
-                          and all(c.__name__ in shadow for c in should))
-                    sig = {"kind": "nofield-inherited-unpacker" if kf else "nofield-dispatch", "wiring": s["wiring"]}
+                    sig = {"kind": "nofield-dispatch", "wiring": s["wiring"]}
                     fails.append((k, f"{step['call']}({step['input']}) -> {fmt(obs)}: {why}",
                                   "one of " + ",".join(c.__name__ for c in should) if should else "SuitableVariantNotFoundError",
                                   fmt(obs), sig))
@@ -923,6 +932,8 @@ def fmt(o) -> str:
         return "+".join(o[1])
     if o[0] == "notdict":
         return "ValueError(should be a dict instance)"
+    if o[0] == "crash":
+        return "TypeError(compiling NoneType)"
     return {"missing": "MissingDiscriminatorError", "notfound": "SuitableVariantNotFoundError"}.get(o[0], o[0])
 
 
@@ -942,10 +953,15 @@ def coq_inkeys(d: dict) -> str:
     return "[" + "; ".join(f"({int(k)}, {'Unhashable' if v == 'U' else 'Hashable %d' % int(v)})" for k, v in sorted(d.items())) + "]"
 
 
+def site_has_none(s: dict) -> bool:
+    """Annotated[Optional[Union[A, B]], D] flattens to Union[A, B, None]: NoneType is one of the base variants"""
+    return False      # fixed in /repo (C12-optional-union-nonetype-variant): None is dropped from the base variants
+
+
 def coq_site(s: dict) -> str:
     b = vlib.coq_bool
     return (f"Site {coq_nats(s['bases'])} {b(s['sub'])} {b(s['sup'])} {b(s['field'])} {b(s['tagger'])} {b(s['config'])} "
-            f"{b(s['wiring'] == 'codec')} {int(s.get('fid', 0))} {int(s.get('tgid', 0))}")
+            f"{b(s['wiring'] == 'codec')} {int(s.get('fid', 0))} {int(s.get('tgid', 0))} {b(site_has_none(s))}")
 
 
 def coq_op(op) -> str:
@@ -975,6 +991,10 @@ def coq_outcome(o) -> str:
         return "Some ONotFound"
     if o[0] == "notdict":
         return "Some ONotDict"
+    if o[0] == "crash":
+        return "Some OCrash"
+    if o[0] == "keyerr" and o[1].startswith("C") and o[1][1:].isdigit():
+        return f"Some (OKeyErr {int(o[1][1:])})"
     if o[0] == "rej" and o[1].startswith("C") and o[1][1:].isdigit():
         return f"Some (ORej {int(o[1][1:])})"
     if o[0] == "many" and all(n.startswith("C") and n[1:].isdigit() for n in o[1]):
@@ -1213,6 +1233,20 @@ def fixed_histories() -> list[Hist]:
         ev += [("decode", skey, 2, [9]), ("decode", skey, None, [9]), ("decode", skey, None, [7]), ("decode", skey, 1, []),
                ("decode", skey, None, [7, KERR_MARKER])]
     out.append(build_fixed("mixed", "str", cl, st, ev))
+    # known finding optional-union-nonetype-variant, in the model: Annotated[Optional[Union[C0, C1]], D(sup, tagger)] through
+    # a holder - every registry miss crashes after registering the real classes, the same input works afterwards; a codec
+    # with the same annotation is not affected
+    cl = [dict(ttags=[5]), dict(parents=[0], ttags=[6]), dict(parents=[1], ttags=[7])]
+    st = [dict(wiring="holder", bases=[0, 1], sub=True, sup=True, tagger=True, shape="a_opt"),
+          dict(wiring="codec", bases=[0, 1], sub=True, sup=True, tagger=True, shape="a_opt"),
+          dict(wiring="holder", bases=[0, 1], sub=False, sup=True, tagger=True, shape="a_listopt")]
+    ev = [("define", 0), ("define", 1), ("site", 0), ("site", 1), ("site", 2)]
+    for k in (0, 1, 2):
+        ev += [("decode", ("site", k), 6, []), ("decode", ("site", k), 6, []), ("decode", ("site", k), 5, []), ("decode", ("site", k), 9, [])]
+    ev += [("define", 2)]
+    for k in (0, 1, 2):
+        ev += [("decode", ("site", k), 7, []), ("decode", ("site", k), 7, []), ("decode", ("site", k), None, [])]
+    out.append(build_fixed("field", "str", cl, st, ev))
     # nested class-level dispatchers: own registry per declaring class (and per codec), class-level form never yields itself
     cl = [dict(config=cfg), dict(parents=[0], own_tag=1, config=cfg, decl="plain"), dict(parents=[1], own_tag=2, decl="plain"),
           dict(parents=[0], own_tag=3, decl="plain"), dict(parents=[1], own_tag=4, decl="plain")]
@@ -1370,7 +1404,7 @@ def probe_optional_union(ctx: vlib.Ctx, n: int):
             ctx.hist("wiring", wiring + "-optional-union")
             exp = ("inst", target)
             if obs != exp:
-                kf = obs[0].startswith("exc") and "immutable type 'NoneType'" in root
+                kf = obs == ("crash",) and "immutable type 'NoneType'" in root and wiring == "holder"
                 ctx.fail(f"{step['call']}({step['input']}) over {ty} -> {fmt(obs)}, expected {target}",
                          {"entry": "history", "script": script, "failing_step": 2, "expected": target, "observed": fmt(obs)},
                          {"kind": "optional-union-nonetype-variant" if kf else "field-dispatch", "wiring": wiring})
@@ -1383,10 +1417,10 @@ def probe_optional_union(ctx: vlib.Ctx, n: int):
 # ---------------------------------------------------------------------------
 
 CODE_THEOREMS = ["C12_code_variants", "C12_code_exceptions"]
-THEOREMS = ["C12_registry_invariant", "C12_registry", "C12_missing_tag", "C12_present_keys_not_missing", "C12_nested_missing_key", "C12_multi_field", "C12_variant_keyerror_refuted", "C12_unhashable_tag", "C12_non_mapping", "C12_history_independent",
+THEOREMS = ["C12_registry_invariant", "C12_registry", "C12_missing_tag", "C12_present_keys_not_missing", "C12_nested_missing_key", "C12_multi_field", "C12_dispatch_ref", "C12_history_independent_full", "C12_uniq_all_decidable", "C12_unhashable_tag", "C12_non_mapping", "C12_history_independent",
             "C12_eligible_exact", "C12_nofield", "C12_trace_event", "C12_tag_unique_decidable",
             "C12_nonunique_order_dependent", "C12_class_level_self_excluded",
-            "C12_nofield_inherited_unpacker_refuted"]
+            "C12_nofield_plain_holder"]
 
 
 def make_replay(h: Hist, k: int, what: str, exp: str, obs: str) -> dict:
@@ -1407,27 +1441,27 @@ def run(ctx: vlib.Ctx):
         "classes' module or in another one, call-time dialects incl. first calls (one model site per holder x dialect), "
         "codecs with default_dialect; inputs: present / future / unknown / absent keys, non-mapping inputs; 25% of the "
         "histories have duplicate tags (correspondence only). Plus 14 fixed edge histories, the stream inside the known-"
-        "finding region of DiscrKF and two probes (several taggers in one holder, Optional-Union).")
+        "former finding region (plain holders, no-field) and two probes (several taggers in one holder, Optional-Union).")
     ctx.assumptions += [
-        "tag uniqueness is required only for the decoded tag among the classes defined before the event (tag_unique); "
-        "without it the result depends on the history (C12_nonunique_order_dependent, reproduced on /repo each run)",
-        "(X1) field mode: when the class carrying the tag declares its own class-level discriminator the oracle applies the "
-        "property to that inner dispatcher on the same input (settings read from the real class); no-field mode: the oracle is "
-        "silent when an eligible class declares its own class-level discriminator (no_nested); the theorems keep the hypotheses "
-        "plain_carriers / no_nested, the nested behaviour itself is in the model and in the correspondence",
-        "(X2) no-field mode through an Annotated holder over plain (non-mixin) dataclasses is generated only in the "
-        "known-finding stream (finding C12/nofield-inherited-unpacker)",
-        "(X4) Annotated[Optional[Union[..]], D] with include_supertypes and a tagger is generated only in the probe of known "
-        "finding C12/optional-union-nonetype-variant",
-        "C12_registry has the hypothesis no_keyerror (the selected class's own from_dict does not leak a KeyError); the "
-        "full statement is refuted in the faithful model (C12_variant_keyerror_refuted, known finding variant-keyerror-"
-        "misreported): the oracle reports those inputs as the known finding",
-        "inputs are mappings with hashable tags (non-mapping / unhashable inputs belong to C05)",
+        "tag uniqueness is required only for the tags the input carries, at the dispatchers that read them, among the classes "
+        "defined before the event (uniq_all / tag_unique; computable: uniq_allb / tag_uniqueb, evaluated in every correspondence "
+        "case); without it the result depends on the history (C12_nonunique_order_dependent, reproduced on /repo each run)",
+        "nested class-level dispatchers of either mode need no hypothesis: C12_dispatch_ref states the answer of the stateful "
+        "dispatcher against the registry-free reference semantics ref_decode (also compared with the implementation in "
+        "every correspondence case); the older relational theorems C12_registry / C12_nofield / C12_multi_field keep "
+        "plain_carriers / no_nested",
+        "the Python oracle is compositional in field mode (a selected class with its own class-level discriminator is decoded by "
+        "that dispatcher) and silent in no-field mode when an eligible class declares its own class-level discriminator",
+        "no open known finding: nofield-inherited-unpacker (233f7d4), tagger-fn-name-collision (79143aa), variant-keyerror-"
+        "misreported (2eac3a7), optional-union-nonetype-variant (439013a) are repaired in /repo; the reverse patches are caught",
     ]
     ctx.trusted += [
         "tools/kernels/k12_discr.py: translator of iter_all_subclasses / _get_variant_names / the class-level Discriminator rebuild "
         "(generator -> list function with fuel, starred tuple entries -> concatenation; PyK_discr.v); validated against CPython every run",
-        "Discr.v step/walk/refill: hand-written model of unpack.py:359-469 + helpers.iter_all_subclasses, compared with /repo on every run (M)",
+        "Discr.v dispatcher/walk/refill + DiscrRef.v ref_decode: hand-written model and reference semantics of unpack.py `_add_body` "
+        "+ helpers.iter_all_subclasses, both compared with /repo on every run (M)",
+        "K12 additionally reads the exception structure of the field branch (six handlers, bases of the two error classes, whether "
+        "the variant call is inside a guarded region); CPython's exception subclass relation is modelled in PyK_discr.subclass_of",
         "modelled, not verified: type.__subclasses__() order = definition order, dict overwrite/lookup by ==/hash, "
         "class attribute lookup in own __dict__, dataclass __init__ acceptance = all default-less fields present",
         "harness/props/c12.py: rendering of histories as Python source and as Coq terms; the independent oracle (issubclass + own __dict__)",
@@ -1460,9 +1494,9 @@ def run(ctx: vlib.Ctx):
         observed, flags, fails = run_history(h)
         results.append((h, observed, flags, fails))
         cases.append(coq_case(h, observed, flags))
-    bad, log = vlib.coq_bad_idx("c12_hist", "Discr", "", "Close Scope Z_scope.\nOpen Scope nat_scope.\n", cases, "case_ok",
+    bad, log = vlib.coq_bad_idx("c12_hist", "Discr DiscrRef", "", "Close Scope Z_scope.\nOpen Scope nat_scope.\n", cases, "case_ok_ref",
                                 "list site * list op * list (option outcome) * list (option bool)",
-                                shard=250, needs=["theories/Discr.vo"])
+                                shard=250, needs=["theories/DiscrRef.vo"])
     corr_ok = True
     if bad is None:
         corr_ok = False
@@ -1564,8 +1598,8 @@ def run(ctx: vlib.Ctx):
         observed, flags, fails = run_history(h)
         account(h, observed, fails)
 
-    # ---- region of the known finding (kept out of the main correspondence by (X2)): compared with the faithful
-    #      model DiscrKF.krun (inherited compiled unpackers), oracle failures are classified by signature
+    # ---- no-field mode through a nailed holder over plain dataclasses with inherited compiled unpackers (the region of the
+    #      former finding nofield-inherited-unpacker, repaired by /repo 233f7d4): compared with the MAIN model
     kcases = []
     kres = []
     for _ in range(ctx.budget(60, 500)):
@@ -1573,23 +1607,20 @@ def run(ctx: vlib.Ctx):
         observed, flags, fails = run_history(h)
         account(h, observed, fails)
         kres.append((h, observed))
-        kcases.append("(" + vlib.coq_list([coq_site(s) for s in h.sites]) + ",\n    " + vlib.coq_list([coq_op(o) for o in h.ops])
-                      + ",\n    " + vlib.coq_list([coq_outcome(o) for o in observed]) + ")")
-    bad, log = vlib.coq_bad_idx("c12_kf", "Discr DiscrKF", "", "Close Scope Z_scope.\nOpen Scope nat_scope.\n", kcases, "kcase_ok",
-                                "list site * list op * list (option outcome)", shard=250, needs=["theories/DiscrKF.vo"])
+        kcases.append(coq_case(h, observed, flags))
+    bad, log = vlib.coq_bad_idx("c12_kf", "Discr DiscrRef", "", "Close Scope Z_scope.\nOpen Scope nat_scope.\n", kcases, "case_ok_ref",
+                                "list site * list op * list (option outcome) * list (option bool)", shard=250, needs=["theories/DiscrRef.vo"])
     if bad is None:
-        ctx.correspondence("kf-model-vs-impl", len(kcases), -1, log)
-        ctx.not_shown("correspondence kf-model-vs-impl", log)
+        ctx.correspondence("plain-holder-nofield-vs-model", len(kcases), -1, log)
+        ctx.not_shown("correspondence plain-holder-nofield-vs-model", log)
     else:
         detail = ""
         if bad:
             h, observed = kres[bad[0]]
             detail = json.dumps({"case": bad[0], "sites": [coq_site(s) for s in h.sites], "ops": [coq_op(o) for o in h.ops],
                                  "observed": [fmt(o) for o in observed]})
-            # the finding's faithful model no longer describes the code (repaired, or changed otherwise): not a violation by
-            # itself (DESIGN 2.4 'model-stale'); the oracle above decides whether the property holds there
-            ctx.notes.append("model-stale: DiscrKF (finding C12/nofield-inherited-unpacker) disagrees with the implementation: " + detail[:600])
-        ctx.correspondence("kf-model-vs-impl", len(kcases), len(bad), detail)
+            ctx.not_shown("correspondence plain-holder-nofield-vs-model", f"{len(bad)} histories disagree, first: {detail}")
+        ctx.correspondence("plain-holder-nofield-vs-model", len(kcases), len(bad), detail)
 
     # ---- several discriminated fields with different tagger functions in one holder
     probe_two_taggers(ctx, ctx.budget(40, 400))
